@@ -760,6 +760,59 @@ def scan_push_pop_owners(pkg):
     return owners
 
 
+def probe_drain(src_root):
+    """BEHAVIOURAL probe (the code of the tree under test is run, not pattern-matched): what do
+    `_process_response_callbacks` / `_process_finished_callbacks` do with callbacks that register callbacks while the
+    deque is being processed?  Returns [(probe name, order run, left in the deque, raised?)]; anything unexpected
+    (import from another tree, exception in the probe itself) -> [("unknown", [], 0, False)] so the obligation fails."""
+    try:
+        import importlib, sys
+        if src_root not in sys.path:
+            sys.path.insert(0, src_root)
+        mod = importlib.import_module('pyramid.request')
+        if not os.path.realpath(mod.__file__).startswith(os.path.realpath(src_root) + os.sep):
+            return [('unknown: pyramid.request imported from %s' % mod.__file__, [], 0, False)]
+        out = []
+        for kind in ('response', 'finished'):
+            for failing in (False, True):
+                obj = mod.CallbackMethodsMixin()
+                log = []
+                add = getattr(obj, 'add_%s_callback' % kind)
+                add_other = getattr(obj, 'add_%s_callback' % ('finished' if kind == 'response' else 'response'))
+
+                def mk(name, then=(), other=(), boom=False):
+                    def cb(*a):
+                        log.append(name)
+                        for n in then:
+                            add(n)
+                        for n in other:
+                            add_other(n)
+                        if boom:
+                            raise RuntimeError(name)
+                    return cb
+                c = mk('c')
+                b = mk('b', then=[c])
+                x = mk('x')
+                a = mk('a', then=[b], other=[x])
+                d = mk('d', boom=failing)
+                e = mk('e')
+                for f in (a, d, e):
+                    add(f)
+                raised = False
+                try:
+                    if kind == 'response':
+                        obj._process_response_callbacks(object())
+                    else:
+                        obj._process_finished_callbacks()
+                except RuntimeError:
+                    raised = True
+                left = len(getattr(obj, '%s_callbacks' % kind))
+                out.append(('%s%s' % (kind, ' with a failing callback' if failing else ''), list(log), left, raised))
+        return out
+    except Exception as e:          # fail closed
+        return [('unknown: %s: %s' % (type(e).__name__, e), [], 0, False)]
+
+
 def generate(src_root):
     pkg = os.path.join(src_root, 'pyramid')
     tr = Tr()
@@ -872,6 +925,15 @@ def generate(src_root):
     L.append('(%s) -/' % ', '.join('%d = %s' % (i, n) for i, n in enumerate(ROLE_NAMES)))
     L.append('def siteRoles : List (Nat × Nat) := [%s]' % ', '.join('(%d, %d)' % kv for kv in sorted(tr.roles.items())))
     L.append('')
+    probe = probe_drain(src_root)
+    L.append('/-- PROBED by running `_process_response_callbacks` / `_process_finished_callbacks` of the tree under test on')
+    L.append('a deque [a, d, e] where a registers b (same deque) and x (the other deque), b registers c, and (second run) d')
+    L.append('raises: (probe, callbacks run in order, left in the deque afterwards, raised?) -/')
+    L.append('def drainProbe : List (String × List String × Nat × Bool) := [')
+    L.append(',\n'.join('  ("%s", [%s], %d, %s)' % (n.replace('"', "'"), ', '.join('"%s"' % x for x in order), left, 'true' if r else 'false')
+                        for n, order, left, r in probe))
+    L.append(']')
+    L.append('')
     L.append('/-- sites of total constructors (%s) assumed not to raise -/' % ', '.join(sorted(NO_RAISE)))
     L.append('def noRaise : List Nat := [%s]' % ', '.join(map(str, tr.no_raise)))
     L.append('')
@@ -959,7 +1021,7 @@ def generate(src_root):
     L.append('end Pyr.Gen.C13')
     text = '\n'.join(L) + '\n'
     summary.clear()
-    summary.update({'roles': {tr.sites[k]: ROLE_NAMES[v] for k, v in sorted(tr.roles.items())}, 'functions': len(defs), 'sites': len(tr.sites), 'noRaise': [tr.sites[i] for i in tr.no_raise],
+    summary.update({'drainProbe': probe, 'roles': {tr.sites[k]: ROLE_NAMES[v] for k, v in sorted(tr.roles.items())}, 'functions': len(defs), 'sites': len(tr.sites), 'noRaise': [tr.sites[i] for i in tr.no_raise],
                     'unknowns': tr.unknowns, 'pushPopOwners': owners, 'set_is_push_alias': setalias})
     return {'PyramidModel/Gen/C13Skeleton.lean': text}
 
